@@ -114,7 +114,53 @@ class C08(Prop):
             evs = tg.events(rng, tg.hist_len(rng, 4, 16), hot=False, mode=mode, unsub_p=0.04)
             out.append(Case("time", rng.choice(["local", "threads"]), [("pipe", [pipe])], evs,
                             {"kind": mode, "src": src[0]}))
-        return tg.with_units(seed, out)
+        return tg.with_units(seed, out) + self.realtimer_cases()
+
+    def realtimer_cases(self):
+        """Harness field `realtimer`: the virtual timers obey the two rules of a real timer future the plain clock does
+        not have — a timer of ZERO length is ready at its first poll, and a timer must not be polled again after it has
+        completed (it panics).  `interval(0).take(n)` then runs its n ticks inside one poll and completes; timer(0) /
+        delay(0) deliver at the first poll.  No model (the chain model has the plain clock): oracle only."""
+        out = []
+        for fl in ("local", "threads"):
+            for n in (1, 2, 3, 5):
+                for wrap in ([], [["map", "add1"]], [["filter", "true"]]):
+                    for src in (["interval", "0"], ["intervalat", "0", "0"], ["intervalat", "2", "0"]):
+                        pipe = ["take", str(n)] + [src]
+                        for w in wrap:
+                            pipe = ["take", str(n), w + [src]]
+                        for pre in ([], [["adv", "2"]], [["adv", "2"], ["fire", "0"]]):
+                            evs = [["sub"]] + pre + [["run"], ["adv", "3"], ["run"], ["run"]]
+                            out.append(Case("time", fl, [("realtimer", ["1"]), ("pipe", [pipe])], evs,
+                                            {"kind": "realtimer", "n": n, "add": 1 if wrap == [["map", "add1"]] else 0}))
+        return out
+
+    def realtimer_oracle(self, case, lines):
+        n, add = int(case.meta.get("n", 0)), int(case.meta.get("add", 0))
+        if not n:
+            # (a replay: read the expectation off the pipe)
+            pipe = case.field("pipe")[0]
+            n = int(pipe[1])
+            add = 1 if pipe[2][0] == "map" else 0
+        got = []
+        for k in range(len(case.events)):
+            b = lines.get(k) or ""
+            if b in ("PANIC", "HANG"):
+                return {"kind": b.lower(), "event": k, "detail": b}
+            if b.startswith("o="):
+                got += tg.parse_suffix(b)[0]
+        want = [f"N{i + add}" for i in range(n)] + ["C"]
+        last = len(case.events) - 1
+        _, kv = tg.parse_suffix(lines.get(last) or "")
+        if got != want:
+            return {"kind": "realtimer-sequence", "event": last,
+                    "detail": f"delivered {got}, want {want} (zero-length timers are ready at their first poll)"}
+        if kv.get("live", 0) != 0:
+            return {"kind": "realtimer-task-survives", "event": last, "detail": lines.get(last)}
+        return None
+
+    def compare_from(self, case):
+        return len(case.events) if case.field("realtimer") else 0
 
     def async_cases(self, rng, tier):
         out = []
@@ -190,6 +236,8 @@ class C08(Prop):
         return None
 
     def oracle(self, case, lines, model_lines=None):
+        if case.field("realtimer"):
+            return self.realtimer_oracle(case, lines)
         pipe = case.field("pipe")[0]
         if pipe[0] in tg.ASYNC_HEADS:
             return self.async_oracle(case, lines)
